@@ -17,8 +17,11 @@ class C06(Prop):
     id = "C06"
     title = "Uplink NAS protection is correct over any message history"
     lean_module = "Stgutg.Props.C06"
-    gen = ["tables"]
+    extra_modules = ["Stgutg.Proofs.GenTieCount"]
+    gen = ["tables", "pure-count"]
     theorems = [
+        # tie by translation: the eight methods of security.Count regenerated from counter.go ARE the hand model
+        "Stgutg.Proofs.GenTie.Count.Count_methods_eq",
         "Stgutg.Props.C06.counter_ops",
         "Stgutg.Props.C06.sqn_overflow",
         "Stgutg.Props.C06.step_protects",
@@ -50,7 +53,8 @@ class C06(Prop):
             "operation on boundary windows, random windows and a strided pass over all 32 bits (thorough: every one of the 2^24 "
             "values) compared as a digest against the model and against the arithmetic meaning. non-trivial = accepted history "
             "with at least one protected message, or a sweep; distinct by op line")
-    trusted_base = ["crypto/aes, cipher.NewCTR, github.com/aead/cmac are parameters of the theorems (Prims); the receiver theorem "
+    trusted_base = ["TIE BY TRANSLATION (gen pure-count, harness/cmd/gen/pure*.go -> lean/Stgutg/Gen/PureCount.lean, regenerated from the source text on every run): security.Count: maskTo24Bits, Get, AddOne, SQN, SetSQN, Overflow, SetOverflow, Set (pointer receiver threaded as a value). The theorems GenTie.Count.Count_methods_eq prove generated definition = hand model for ALL inputs, so a change of the Go text changes the generated definition and the theorem stops checking, whatever input would show it. Trusted here instead of sampling: the translator's grammar and its runtime Gen/PureRt.lean (Go's fixed-width arithmetic, index / slice panics, value semantics of slices under the translator's no-alias check, go/types constant evaluation); a construct outside the grammar fails closed (TRANSLATOR-FAILED file:line)",
+                    "crypto/aes, cipher.NewCTR, github.com/aead/cmac are parameters of the theorems (Prims); the receiver theorem "
                     "assumes the CTR primitive is a keystream cipher (ctr k iv m = m xor stream k iv |m|), shown satisfiable; "
                     "Crypto/Aes.lean instantiates the primitives for the comparator only",
                     "the plain NAS codec (PlainNasEncode/PlainNasDecode) is outside the model: plain octets are an input "
